@@ -39,6 +39,18 @@ type Env struct {
 	nextMark int
 	Infra    error
 	start    time.Time
+	Attrs    map[string]bool // facts about the history (see core.Violation.Attrs)
+}
+
+// Attr records a fact about the history of this run.
+func (e *Env) Attr(name string) {
+	if e.Attrs == nil {
+		e.Attrs = map[string]bool{}
+	}
+	e.Attrs[name] = true
+	if e.V != nil {
+		e.V.Attrs = core.SortedKeys(e.Attrs)
+	}
 }
 
 // Fail records the first violation of the run.
@@ -131,6 +143,9 @@ func RunInBubble(prop string, sc *core.Scenario, keepLog bool, cfg world.Config,
 		})
 	}()
 	res.V = e.V
+	if res.V != nil {
+		res.V.Attrs = core.SortedKeys(e.Attrs)
+	}
 	res.Infra = e.Infra
 	res.Stats.TraceHash = tr.Hash()
 	res.Stats.Actions = e.Step
